@@ -4,6 +4,7 @@
   usage: hydrv <component> < ops > results     (one result line per op line)
 -/
 import Hy.Drv.Frame
+import Hy.Drv.Relay
 
 open Hy.Drv
 
@@ -27,4 +28,5 @@ def main (args : List String) : IO UInt32 := do
   let stdout ← IO.getStdout
   match args with
   | ["frame"] => loopPure stdin stdout Frame.step; return 0
+  | ["relay"] => loopPure stdin stdout Relay.step; return 0
   | _ => IO.eprintln "usage: hydrv <component>"; return 2
